@@ -11,6 +11,7 @@ import (
 	"hash/fnv"
 	"math"
 
+	kgzip "github.com/klauspost/compress/gzip"
 	"github.com/klauspost/compress/zstd"
 	"github.com/twmb/franz-go/pkg/kgo"
 	"pgregory.net/rapid"
@@ -398,15 +399,8 @@ func xerialFrame(x []byte, chunk int, enc int, version, compat uint32) ([]byte, 
 			return refSnappyEncode(b)
 		case 1:
 			return kgoFrame(prefItem{Kind: 2}, b)
-		default: // literal only
-			out := binary.AppendUvarint(nil, uint64(len(b)))
-			for len(b) > 0 {
-				k := min(len(b), 60)
-				out = append(out, byte(k-1)<<2)
-				out = append(out, b[:k]...)
-				b = b[k:]
-			}
-			return out
+		default:
+			return snappyLiteralOnly(b)
 		}
 	}
 	if len(x) == 0 {
@@ -458,17 +452,65 @@ func lz4StoredFrame(x []byte, blockLen int) []byte {
 	return binary.LittleEndian.AppendUint32(out, refXXH32(x, 0))
 }
 
-// zstdStreamFrame: a zstd frame without a declared content size and with a chosen
-// window, produced by the streaming encoder (an input builder, not an oracle).
+var zstdStreamEncoders = map[int]*zstd.Encoder{}
+
+// zstdStreamFrame: a zstd frame with a chosen window produced by the streaming encoder
+// (several blocks and no declared content size once the payload exceeds one block); an
+// input builder, not an oracle. Encoders are kept per window size (input preparation).
 func zstdStreamFrame(x []byte, window int) []byte {
 	var buf bytes.Buffer
-	w, err := zstd.NewWriter(&buf, zstd.WithWindowSize(window), zstd.WithEncoderConcurrency(1))
-	if err != nil {
+	w := zstdStreamEncoders[window]
+	if w == nil {
+		var err error
+		w, err = zstd.NewWriter(&buf, zstd.WithWindowSize(window), zstd.WithEncoderConcurrency(1))
+		if err != nil {
+			panic("VERIF-INFRA: zstd stream encoder: " + err.Error())
+		}
+		zstdStreamEncoders[window] = w
+	} else {
+		w.Reset(&buf)
+	}
+	if _, err := w.Write(x); err != nil {
 		panic("VERIF-INFRA: zstd stream encoder: " + err.Error())
 	}
-	w.Write(x)
-	w.Close()
+	if err := w.Close(); err != nil {
+		panic("VERIF-INFRA: zstd stream encoder: " + err.Error())
+	}
+	return append([]byte(nil), buf.Bytes()...)
+}
+
+// kgzipFrame: a gzip member written by klauspost/compress (kgo compresses with the
+// standard library), optionally with the optional header fields set.
+func kgzipFrame(x []byte, level int, headerFields bool) []byte {
+	var buf bytes.Buffer
+	w, err := kgzip.NewWriterLevel(&buf, level)
+	if err != nil {
+		panic("VERIF-INFRA: klauspost gzip writer: " + err.Error())
+	}
+	if headerFields {
+		w.Name = "batch.bin"
+		w.Comment = "c19"
+		w.Extra = []byte{'A', 'P', 2, 0, 0x12, 0x34}
+	}
+	if _, err := w.Write(x); err != nil {
+		panic("VERIF-INFRA: klauspost gzip writer: " + err.Error())
+	}
+	if err := w.Close(); err != nil {
+		panic("VERIF-INFRA: klauspost gzip writer: " + err.Error())
+	}
 	return buf.Bytes()
+}
+
+// snappyLiteralOnly: a raw snappy block that stores x in literals of at most 60 bytes.
+func snappyLiteralOnly(b []byte) []byte {
+	out := binary.AppendUvarint(nil, uint64(len(b)))
+	for len(b) > 0 {
+		k := min(len(b), 60)
+		out = append(out, byte(k-1)<<2)
+		out = append(out, b[:k]...)
+		b = b[k:]
+	}
+	return out
 }
 
 // ---- byte mutations ----------------------------------------------------------------
